@@ -1,5 +1,6 @@
 import Uom.Model.Dim
 import Uom.Gen.Table
+import Uom.Gen.Sigs
 /-!
 # C02 — dimensionally or kind-wise invalid programs are rejected at compile time
 
@@ -101,5 +102,82 @@ theorem si_pairs_rejected :
         ([Form.add, .sub, .adda, .suba].all fun f =>
           !accepts siEnv f A B false || (A = siEnv.tt && B = siEnv.ti) || (f == .add && A = siEnv.ti && B = siEnv.tt))) = true := by
   decide +kernel
+
+/-! ### tie to the source: the trait bounds regenerated from /repo/src on this run
+
+For each operator the regenerated signature says (a) which dimension parameter the two operands carry
+— the *same* parameter `D` for the additive, remainder, comparison, `hypot`, `max`/`min` forms, so the
+operand types must be identical —, and (b) the `where` bounds; `Sig.holds` evaluates the bounds over
+the generated kind table.  These are exactly the clauses of `accepts`. -/
+section SourceTie
+open Uom.Body Uom.Sig Uom.Gen.Sig
+
+/-- both operands are typed with the same dimension parameter (hence `A = B` in `accepts`) -/
+theorem src_same_dimension_parameter :
+    (system_Add_Quantity_for_Quantity_add_auto.lhs = some .D ∧ system_Add_Quantity_for_Quantity_add_auto.rhs = some .D) ∧
+    (system_Add_for_Quantity_add_noauto.lhs = some .D ∧ system_Add_for_Quantity_add_noauto.rhs = some .D) ∧
+    (system_Sub_Quantity_for_Quantity_sub_auto.lhs = some .D ∧ system_Sub_Quantity_for_Quantity_sub_auto.rhs = some .D) ∧
+    (system_Sub_for_Quantity_sub_noauto.lhs = some .D ∧ system_Sub_for_Quantity_sub_noauto.rhs = some .D) ∧
+    (system_Rem_Quantity_for_Quantity_rem_auto.lhs = some .D ∧ system_Rem_Quantity_for_Quantity_rem_auto.rhs = some .D) ∧
+    (system_Rem_for_Quantity_rem_noauto.lhs = some .D ∧ system_Rem_for_Quantity_rem_noauto.rhs = some .D) ∧
+    (system_AddAssign_Quantity_for_Quantity_add_assign_auto.lhs = some .D ∧ system_AddAssign_Quantity_for_Quantity_add_assign_auto.rhs = some .D) ∧
+    (system_SubAssign_Quantity_for_Quantity_sub_assign_auto.lhs = some .D ∧ system_SubAssign_Quantity_for_Quantity_sub_assign_auto.rhs = some .D) ∧
+    (system_RemAssign_Quantity_for_Quantity_rem_assign_auto.lhs = some .D ∧ system_RemAssign_Quantity_for_Quantity_rem_assign_auto.rhs = some .D) ∧
+    (system_PartialEq_Quantity_for_Quantity_eq_auto.lhs = some .D ∧ system_PartialEq_Quantity_for_Quantity_eq_auto.rhs = some .D) ∧
+    (system_PartialEq_for_Quantity_eq_noauto.lhs = some .D ∧ system_PartialEq_for_Quantity_eq_noauto.rhs = some .D) ∧
+    (system_PartialOrd_Quantity_for_Quantity_partial_cmp_auto.lhs = some .D ∧ system_PartialOrd_Quantity_for_Quantity_partial_cmp_auto.rhs = some .D) ∧
+    (system_PartialOrd_for_Quantity_partial_cmp_noauto.lhs = some .D ∧ system_PartialOrd_for_Quantity_partial_cmp_noauto.rhs = some .D) ∧
+    (system_Ord_for_Quantity_max.lhs = some .D ∧ system_Ord_for_Quantity_max.rhs = some .D) ∧
+    (system_inherent_Quantity_hypot_auto.lhs = some .D ∧ system_inherent_Quantity_hypot_auto.rhs = some .D) ∧
+    (system_inherent_Quantity_hypot_noauto.lhs = some .D ∧ system_inherent_Quantity_hypot_noauto.rhs = some .D) ∧
+    (si_angle_inherent_Quantity_atan2.lhs = some .D ∧ si_angle_inherent_Quantity_atan2.rhs = some .D) := by
+  decide
+
+/-- the kind bounds are exactly the marker the `accepts` clause asks for -/
+theorem src_kind_bounds (te : TyEnv) (env : TyP → QTy) :
+    system_Add_Quantity_for_Quantity_add_auto.holds te env = te.has (env .D).kind mAdd ∧
+    system_Add_for_Quantity_add_noauto.holds te env = te.has (env .D).kind mAdd ∧
+    system_Sub_Quantity_for_Quantity_sub_auto.holds te env = te.has (env .D).kind mSub ∧
+    system_Sub_for_Quantity_sub_noauto.holds te env = te.has (env .D).kind mSub ∧
+    system_Rem_Quantity_for_Quantity_rem_auto.holds te env = te.has (env .D).kind mRem ∧
+    system_Rem_for_Quantity_rem_noauto.holds te env = te.has (env .D).kind mRem ∧
+    system_AddAssign_Quantity_for_Quantity_add_assign_auto.holds te env = te.has (env .D).kind mAddAssign ∧
+    system_AddAssign_for_Quantity_add_assign_noauto.holds te env = te.has (env .D).kind mAddAssign ∧
+    system_SubAssign_Quantity_for_Quantity_sub_assign_auto.holds te env = te.has (env .D).kind mSubAssign ∧
+    system_SubAssign_for_Quantity_sub_assign_noauto.holds te env = te.has (env .D).kind mSubAssign ∧
+    system_RemAssign_Quantity_for_Quantity_rem_assign_auto.holds te env = te.has (env .D).kind mRemAssign ∧
+    system_RemAssign_for_Quantity_rem_assign_noauto.holds te env = te.has (env .D).kind mRemAssign ∧
+    system_Neg_for_Quantity_neg.holds te env = te.has (env .D).kind mNeg := by
+  simp [Sig.holds, system_Add_Quantity_for_Quantity_add_auto, system_Add_for_Quantity_add_noauto,
+    system_Sub_Quantity_for_Quantity_sub_auto, system_Sub_for_Quantity_sub_noauto,
+    system_Rem_Quantity_for_Quantity_rem_auto, system_Rem_for_Quantity_rem_noauto,
+    system_AddAssign_Quantity_for_Quantity_add_assign_auto, system_AddAssign_for_Quantity_add_assign_noauto,
+    system_SubAssign_Quantity_for_Quantity_sub_assign_auto, system_SubAssign_for_Quantity_sub_assign_noauto,
+    system_RemAssign_Quantity_for_Quantity_rem_assign_auto, system_RemAssign_for_Quantity_rem_assign_noauto,
+    system_Neg_for_Quantity_neg, mAdd, mSub, mRem, mAddAssign, mSubAssign, mRemAssign, mNeg]
+
+/-- comparisons, `hypot`, `max`/`min`, `atan2` carry no kind bound at all: identical types suffice -/
+theorem src_comparisons_unbounded (te : TyEnv) (env : TyP → QTy) :
+    system_PartialEq_Quantity_for_Quantity_eq_auto.holds te env = true ∧
+    system_PartialEq_for_Quantity_eq_noauto.holds te env = true ∧
+    system_PartialOrd_Quantity_for_Quantity_partial_cmp_auto.holds te env = true ∧
+    system_PartialOrd_for_Quantity_partial_cmp_noauto.holds te env = true ∧
+    system_Ord_for_Quantity_max.holds te env = true ∧
+    system_inherent_Quantity_hypot_auto.holds te env = true ∧
+    system_inherent_Quantity_hypot_noauto.holds te env = true ∧
+    si_angle_inherent_Quantity_atan2.holds te env = true :=
+  ⟨rfl, rfl, rfl, rfl, rfl, rfl, rfl, rfl⟩
+
+/-- roots: the bounds hold iff every exponent is divisible and the kind allows division — the `.sqrt` /
+    `.cbrt` clauses of `accepts` -/
+theorem src_root_bounds (te : TyEnv) (env : TyP → QTy) :
+    system_inherent_Quantity_sqrt.holds te env = ((outRoot 2 (env .D)).isSome && te.has (env .D).kind mDiv) ∧
+    system_inherent_Quantity_cbrt.holds te env = ((outRoot 3 (env .D)).isSome && te.has (env .D).kind mDiv) := by
+  constructor <;>
+  · simp only [Sig.holds, system_inherent_Quantity_sqrt, system_inherent_Quantity_cbrt, List.all_cons, List.all_nil,
+      Bool.and_true, symBoundHolds, outRoot, mDiv]
+    split <;> simp_all [Bool.and_comm]
+
+end SourceTie
 
 end Uom.C02
